@@ -601,6 +601,60 @@ fn handle(st: &mut St, line: &str) -> Result<String, String> {
                 Err(_) => Ok("err".into()),
             }
         }
+        "EQL" => {
+            // two JSON texts parsed into two buffers that start at different addresses modulo 8 and hold different
+            // garbage: the values must be byte-identical AND compare equal (==, Hash), as must their tag sections
+            // and the owned event built from the first one's parts
+            use std::hash::{Hash, Hasher};
+            let t1 = unhex(a[0])?;
+            let t2 = unhex(a[1])?;
+            let seed: u64 = a[2].parse().map_err(|_| "seed".to_string())?;
+            let (o1, o2) = ((seed % 8) as usize, ((seed / 8) % 8) as usize);
+            let n = t1.len().max(t2.len()) + 4096;
+            let mut b1 = vec![0u8; n + 8];
+            let mut b2 = vec![0u8; n + 8];
+            fill(seed ^ 0x5555, &mut b1);
+            fill(seed ^ 0xaaaa, &mut b2);
+            let r1 = Event::from_json(&t1, &mut b1[o1..]).map(|(_, e)| e.len());
+            let r2 = Event::from_json(&t2, &mut b2[o2..]).map(|(_, e)| e.len());
+            match (r1, r2) {
+                (Ok(l1), Ok(l2)) => {
+                    let e1 = unsafe { Event::delineate(&b1[o1..o1 + l1]) }.map_err(|_| "delin".to_string())?;
+                    let e2 = unsafe { Event::delineate(&b2[o2..o2 + l2]) }.map_err(|_| "delin".to_string())?;
+                    let h = |e: &Event| {
+                        let mut s = std::collections::hash_map::DefaultHasher::new();
+                        e.hash(&mut s);
+                        s.finish()
+                    };
+                    let teq = match (e1.tags(), e2.tags()) {
+                        (Ok(x), Ok(y)) => x == y,
+                        _ => false,
+                    };
+                    let own = match e1.tags() {
+                        Ok(tg) => {
+                            let ot = tg.to_owned();
+                            match OwnedEvent::new(e1.id(), e1.kind(), e1.pubkey(), e1.sig(), &ot, e1.created_at(), e1.content()) {
+                                Ok(o) => {
+                                    let oe: &Event = &o;
+                                    oe == e2 && e1.to_owned() == o
+                                }
+                                Err(_) => false,
+                            }
+                        }
+                        Err(_) => false,
+                    };
+                    Ok(format!(
+                        "ok eq={} hash={} teq={} own={} bytes={}",
+                        (e1 == e2) as u8,
+                        (h(e1) == h(e2)) as u8,
+                        teq as u8,
+                        own as u8,
+                        (e1.as_bytes() == e2.as_bytes()) as u8
+                    ))
+                }
+                _ => Ok("err".into()),
+            }
+        }
         "EVA" => {
             let b = unhex(a[0])?;
             match unsafe { Event::delineate(&b) } {
